@@ -523,11 +523,17 @@ func (w *OggWriter) Close() error {
 	}()
 
 	if w.fd == nil {
+		if w.stream == nil {
+			return nil
+		}
+		// The output can't be rewritten: terminate the logical stream with an
+		// empty end-of-stream page, like the multi-track writer does.
+		eosErr := writeNilEndOfStreamPage(w.stream, w.checksumTable, w.track)
 		if closer, ok := w.stream.(io.Closer); ok {
-			return closer.Close()
+			return errors.Join(eosErr, closer.Close())
 		}
 
-		return nil
+		return eosErr
 	}
 
 	closeErr := markTrackEndOfStream(w.fd, w.checksumTable, w.track)
